@@ -79,6 +79,9 @@ pub enum Op {
     SwapRemove(String),
     SwapRemoveIdx(usize),
     Retain(Vec<bool>),
+    /// retain with a predicate that renames (through the `&mut T` it gets) items that it keeps:
+    /// keep mask, new name per position (None = unchanged)
+    RetainRename(Vec<bool>, Vec<Option<String>>),
     Truncate(usize),
     SortAsc,
     SortDesc,
@@ -102,6 +105,7 @@ impl Op {
             Op::SwapRemove(_) => "swap_remove",
             Op::SwapRemoveIdx(_) => "swap_remove_idx",
             Op::Retain(_) => "retain",
+            Op::RetainRename(..) => "retain(renaming predicate)",
             Op::Truncate(_) => "truncate",
             Op::SortAsc | Op::SortDesc => "sort_by",
             Op::Rename(..) => "rename_item",
@@ -168,6 +172,10 @@ fn arg_class(op: &Op, model: &Model) -> String {
                 "absent".into()
             }
         }
+        Op::RetainRename(mask, _) => {
+            let kept = mask.iter().filter(|b| **b).count();
+            if kept == mask.len() { "all".into() } else { "some".into() }
+        }
         Op::Retain(mask) => {
             let kept = mask.iter().filter(|b| **b).count();
             if kept == mask.len() {
@@ -205,6 +213,19 @@ fn apply_model(model: &mut Model, op: &Op, next_id: &mut u64) {
             let mut k = 0;
             model.retain(|_| {
                 let keep = mask.get(k).copied().unwrap_or(true);
+                k += 1;
+                keep
+            });
+        }
+        Op::RetainRename(mask, names) => {
+            let mut k = 0;
+            model.retain_mut(|e| {
+                let keep = mask.get(k).copied().unwrap_or(true);
+                if keep {
+                    if let Some(Some(n)) = names.get(k) {
+                        e.0 = n.clone();
+                    }
+                }
                 k += 1;
                 keep
             });
@@ -293,6 +314,19 @@ fn apply_real<T: Item>(
                     "retain visited {seen:?}, model order is {want:?}"
                 ));
             }
+        }
+        Op::RetainRename(mask, names) => {
+            let mut k = 0;
+            list.retain(|item| {
+                let keep = mask.get(k).copied().unwrap_or(true);
+                if keep {
+                    if let Some(Some(n)) = names.get(k) {
+                        item.set_name(n.clone());
+                    }
+                }
+                k += 1;
+                keep
+            });
         }
         Op::Truncate(k) => list.truncate(*k),
         Op::SortAsc => list.sort_by(|a, b| a.get_name().cmp(b.get_name())),
@@ -460,6 +494,19 @@ fn all_ops(model: &Model, alphabet: &[String]) -> Vec<Op> {
     }
     for mask in 0..(1u32 << len) {
         ops.push(Op::Retain((0..len).map(|b| mask & (1 << b) != 0).collect()));
+    }
+    // retain whose predicate renames one of the items it keeps to a name that is not in the list
+    for mask in 0..(1u32 << len) {
+        for i in 0..len {
+            if mask & (1 << i) == 0 {
+                continue;
+            }
+            for n in &absent {
+                let mut names = vec![None; len];
+                names[i] = Some(n.clone());
+                ops.push(Op::RetainRename((0..len).map(|b| mask & (1 << b) != 0).collect(), names));
+            }
+        }
     }
     ops.push(Op::SortAsc);
     ops.push(Op::SortDesc);
@@ -701,6 +748,19 @@ fn random_op(rng: &mut Rng, model: &Model, pool: &[String]) -> Op {
                 len.saturating_sub(rng.below(3))
             }),
             16 => Op::SortAsc,
+            17 if rng.chance(1, 2) && len > 0 => match fresh(rng) {
+                Some(n) => {
+                    let mask: Vec<bool> = (0..len).map(|_| rng.chance(3, 4)).collect();
+                    let mut names = vec![None; len];
+                    let kept: Vec<usize> = (0..len).filter(|i| mask[*i]).collect();
+                    if kept.is_empty() {
+                        continue;
+                    }
+                    names[kept[rng.below(kept.len())]] = Some(n);
+                    Op::RetainRename(mask, names)
+                }
+                None => continue,
+            },
             17 => Op::SortDesc,
             18 | 19 => match fresh(rng) {
                 Some(n) => Op::Rename(idx(rng), n),
@@ -773,6 +833,14 @@ fn random_history<T: Item>(rng: &mut Rng, rec: &mut Recorder, label: &str, steps
         if let Op::Rename(i, _) = &op {
             if *i < model.len() {
                 probe.push(model[*i].0.clone());
+            }
+        }
+        if let Op::RetainRename(_, names) = &op {
+            for (i, n) in names.iter().enumerate() {
+                if let Some(n) = n {
+                    probe.push(n.clone());
+                    probe.push(model[i].0.clone());
+                }
             }
         }
         if probe.len() > 12 {
@@ -886,6 +954,8 @@ pub fn run(args: &Args, rec: &mut Recorder) {
         "op.retain.some",
         "op.retain.none",
         "op.retain.all",
+        "op.retain(renaming predicate).some",
+        "op.retain(renaming predicate).all",
         "op.truncate.shorter",
         "op.truncate.beyond",
         "op.truncate.zero",
